@@ -5,14 +5,16 @@
 (* bit-string definitions of Leb128.tla:                                    *)
 (*   - encoders: every integer n with |n| <= MaxN                           *)
 (*   - decoders: every well-formed byte sequence of at most MaxLen bytes    *)
-(*     (generated by the actions GenMore / GenLast)                         *)
+(*     whose non-final bytes are in ContBytes (actions GenMore / GenLast)   *)
 (* Invariants: loop invariants of the algorithms, algorithm = definition,   *)
 (* Decode(Encode(n)) = n, and by brute force over all byte sequences:       *)
 (* no well-formed sequence decoding to z is shorter than Enc(z), one of     *)
 (* the same length is Enc(z) itself (unique minimal encoding), and          *)
 (* "last byte not redundant" characterises the canonical encoding.          *)
 EXTENDS Leb128, TLC
-CONSTANTS MaxN, MaxLen
+CONSTANTS MaxN, MaxLen, ContBytes     \* ContBytes: non-final bytes the generator uses
+AllCont == 128..255
+BoundaryCont == {128, 129, 191, 192, 254, 255}
 VARIABLES alg, pc, n, val, out, bs, pos, result, shift
 vars == <<alg, pc, n, val, out, bs, pos, result, shift>>
 
@@ -50,7 +52,7 @@ EncSLast ==
 (* ---- generator of every well-formed byte sequence ---------------------- *)
 GenMore ==
     /\ pc = "gen" /\ Len(bs) < MaxLen - 1
-    /\ \E b \in 128..255 : bs' = Append(bs, b)
+    /\ \E b \in ContBytes : bs' = Append(bs, b)
     /\ UNCHANGED <<alg, pc, n, val, out, pos, result, shift>>
 GenLast ==
     /\ pc = "gen"
@@ -129,6 +131,13 @@ DecUniqueMinimal ==
     (pc = "done" /\ alg \in Decoders) =>
         /\ alg = "decS" => Unique(EncS(DecS(bs)), MinimalS(bs))
         /\ alg = "decU" => Unique(EncU(DecU(bs)), MinimalU(bs))
+\* the non-recursive wide-string operators are BitSeq's (on every payload generated)
+WideOps ==
+    (pc = "done" /\ alg \in Decoders) =>
+        LET u == Payload(bs) IN
+        /\ WNeg(u) = Neg(u) /\ WNorm(u) = Norm(u)
+        /\ SignedOf(u) = BVToSignedZ(u) /\ UnsignedOf(u) = BVToUnsignedZ(u)
+        /\ \A w \in {Len(u), Len(u) + 3} : ToBits(SignedOf(u), w) = ZToUnsigned(BVToSignedZ(u), w)
 \* a number is self-delimiting inside a longer byte stream
 DecPrefix ==
     (pc = "done" /\ alg \in Decoders) =>
